@@ -204,7 +204,58 @@ def sim(P, parset, pset=None, instr=None, fw=None):
     return m
 
 
-def compare_runs(R, label, rA, rB, rtol=1e-9):
+def ulp_run(P, parset, pset=None, instr=None, fw=None):
+    """The same run with every calibration factor and every unit cost moved by one unit in the last place: what this model does
+    to a difference in the 16th digit of its inputs."""
+    import sciris as sc
+
+    ps_ = sc.dcp(parset)
+    up = float(np.nextafter(1.0, 2.0))
+    for par in ps_.all_pars():
+        for pop in par.y_factor:
+            par.y_factor[pop] = par.y_factor[pop] * up
+    pset_ = None
+    if pset is not None:
+        pset_ = sc.dcp(pset)
+        for prog in pset_.programs.values():
+            prog.unit_cost.vals = [float(np.nextafter(v, np.inf)) for v in prog.unit_cost.vals]
+            if prog.unit_cost.assumption is not None:
+                prog.unit_cost.assumption = float(np.nextafter(prog.unit_cost.assumption, np.inf))
+    return sim(P, ps_, pset_, instr, fw=fw)
+
+
+def _drift(A, B, floor_):
+    worst = 0.0
+    for k, v in A.items():
+        if k[0] in ("comp", "link", "bins", "charac") and k in B and B[k].shape == v.shape:
+            with np.errstate(all="ignore"):
+                e_ = np.abs(B[k] - v) / np.maximum(floor_, np.maximum(np.abs(B[k]), np.abs(v)))
+            if e_.size and np.isfinite(e_).any():
+                worst = max(worst, float(np.nanmax(e_)))
+    return worst
+
+
+def compare_runs(R, label, rA, rB, rtol=1e-9, sens=None):
+    """sens: (P, parset, pset, instr[, fw]) of run A.  When the runs differ by more than rtol the model's own sensitivity is
+    measured with a one-ulp perturbation of A's inputs; a difference within 100 x that drift is what any 16th-digit difference
+    does to this model, not a difference in content."""
+    diffs = _compare_runs(R, label, rA, rB, rtol)
+    if diffs and rtol > 0 and sens is not None and not any(d[1] == "None" for d in diffs):
+        try:
+            rC = ulp_run(*sens)
+            A, B, C = digest.result_arrays(rA), digest.result_arrays(rB), digest.result_arrays(rC)
+            floor_ = max([1.0] + [float(np.nanmax(np.abs(np.where(np.isfinite(v), v, 0.0)))) for k, v in A.items() if k[0] in ("comp", "link") and v.size])
+            d_ab, d_ulp = _drift(A, B, floor_), _drift(A, C, floor_)
+            R.count("run_differences_judged_against_the_models_own_sensitivity")
+            if d_ab <= 100.0 * d_ulp:
+                R.count("run_difference_within_the_drift_of_a_one_ulp_change")
+                return []
+        except Exception as e:
+            R.count("sensitivity_run_failed[%s]" % type(e).__name__)
+    return diffs
+
+
+def _compare_runs(R, label, rA, rB, rtol=1e-9):
     R.count("paired_simulations")
     vA = ref.View(rA)
     if vA.ill_posed_junctions():
@@ -375,7 +426,7 @@ def _round_trip(R, kind, P, pset, instr, rng):
         if pset is not None:
             pset2 = at.ProgramSet.from_spreadsheet(pset.to_spreadsheet(), framework=fw2, data=data2)
         r2 = sim(P, ps2, pset2, instr, fw=fw2)
-        diffs = compare_runs(R, kind, base, r2)
+        diffs = compare_runs(R, kind, base, r2, sens=(P, parset, pset, instr))
         if diffs:
             R.bad("framework-behaviour", "C16:framework-round-trip-simulation-differs", {"first_differences": diffs})
         elif diffs is not None:
@@ -399,7 +450,7 @@ def _round_trip(R, kind, P, pset, instr, rng):
         ps2 = at.ParameterSet(P.framework, data2, "rt")
         copy_yfactors(parset, ps2)
         r2 = sim(P, ps2, pset, instr)
-        diffs = compare_runs(R, kind, base, r2)
+        diffs = compare_runs(R, kind, base, r2, sens=(P, parset, pset, instr))
         if diffs:
             R.bad("databook-behaviour", "C16:databook-round-trip-simulation-differs", {"first_differences": diffs})
         elif diffs is not None:
@@ -423,7 +474,7 @@ def _round_trip(R, kind, P, pset, instr, rng):
         else:
             R.ok("progbook-content")
         r2 = sim(P, parset, pset2, instr)
-        diffs = compare_runs(R, kind, base, r2)
+        diffs = compare_runs(R, kind, base, r2, sens=(P, parset, pset, instr))
         if diffs:
             R.bad("progbook-behaviour", "C16:progbook-round-trip-simulation-differs", {"first_differences": diffs})
         elif diffs is not None:
@@ -466,7 +517,7 @@ def _round_trip(R, kind, P, pset, instr, rng):
         else:
             R.ok("calibration-content")
         r2 = sim(P, ps2, pset, instr)
-        diffs = compare_runs(R, kind, r1, r2)
+        diffs = compare_runs(R, kind, r1, r2, sens=(P, ps1, pset, instr))
         if diffs:
             R.bad("calibration-behaviour", "C16:calibration-round-trip-simulation-differs", {"first_differences": diffs})
         elif diffs is not None:
@@ -671,7 +722,7 @@ def progset_ops(R, case, P, pset, instr, rng):
     except Exception as e:
         R.count("rebuilt_progset_fails_to_simulate[%s]" % type(e).__name__)
         return False
-    diffs = compare_runs(R, "progset_ops", rA, rB)
+    diffs = compare_runs(R, "progset_ops", rA, rB, sens=(P, parset, ps, instr2))
     if diffs:
         R.bad("behaves-as-visible-data", "C16:edited-progset-differs-from-rebuilt[%s]" % "+".join(sorted(set(applied))), {"ops": applied, "first_differences": diffs})
     elif diffs is not None:
@@ -761,7 +812,7 @@ def data_ops(R, case, P, spec, rng):
     except Exception as e:
         R.count("edited_databook_run_failed[%s]" % type(e).__name__)
         return False
-    diffs = compare_runs(R, "data_ops", rA, rB)
+    diffs = compare_runs(R, "data_ops", rA, rB, sens=(P, psA))
     if diffs:
         R.bad("behaves-as-visible-data", "C16:edited-databook-differs-from-rebuilt[%s]" % "+".join(sorted(set(applied))), {"ops": applied, "first_differences": diffs})
     elif diffs is not None:
@@ -867,7 +918,7 @@ def parset_ops(R, case, P, spec, pset, instr, rng):
     except Exception as e:
         R.count("parset_run_failed[%s]" % type(e).__name__)
         return False
-    diffs = compare_runs(R, "parset_ops", rA, rB)
+    diffs = compare_runs(R, "parset_ops", rA, rB, sens=(P, ps))
     if diffs:
         R.bad("behaves-as-visible-data", "C16:edited-parset-differs-from-expected[%s]" % "+".join(sorted(set(applied))), {"ops": applied, "first_differences": diffs})
     elif diffs is not None:
